@@ -75,8 +75,15 @@ def stitch_switch(t, site, uplinks):
     return sw, sf, ports
 
 
-def site_adm(site, adm_id):
+def _isolated_stitch_node(t):
+    # a stitching element without any connection inside the model (a shared exchange point nothing is attached to yet)
+    t.add_node(name='iso-x', node_id='iso-x', site='X', ntype=NodeType.Switch, stitch_node=True)
+
+
+def site_adm(site, adm_id, iso=False):
     t = SubstrateTopology()
+    if iso:
+        _isolated_stitch_node(t)
     sw, sf, ports = stitch_switch(t, site, (1, 2))
     inner = sf.add_interface(name=f'{site}-sw-p0', node_id=f'{site}-sw-p0', itype=InterfaceType.TrunkPort, capacities=Capacities(bw=100))
     w = t.add_node(name=f'{site}-w0', node_id=f'{site}-w0', site=site, ntype=NodeType.Server, capacities=Capacities(core=32, ram=64))
@@ -91,9 +98,11 @@ def site_adm(site, adm_id):
     return adms['d1']
 
 
-def network_adm(name, adm_id, ends, kinds=None, extra=False):
+def network_adm(name, adm_id, ends, kinds=None, extra=False, iso=False):
     """ends: list of (site, uplink) shared with site models, plus an own exchange switch when ends has one member"""
     t = SubstrateTopology()
+    if iso:
+        _isolated_stitch_node(t)
     ps = []
     for site, u in ends:
         _, _, ports = stitch_switch(t, site, (1, 2))
@@ -118,6 +127,8 @@ def network_adm(name, adm_id, ends, kinds=None, extra=False):
 FAMILIES = {
     # shared elements whose copies differ in a plain property: the combined element has the properties of the copy that
     # brought it in (the merge code's 'use CBM' rule), whatever is merged onto it later
+    # both models contain a stitching element that has no connection at all
+    'F2o': [('site', 'A', 'ADM-A', 'iso'), ('net', 'N2', 'ADM-N2', (('A', 2),), None, False, 'iso')],
     'F2x': [('site', 'A', 'ADM-A'), ('net', 'N2', 'ADM-N2', (('A', 2),), None, True)],
     'F3': [('site', 'A', 'ADM-A'), ('site', 'B', 'ADM-B'), ('net', 'N1', 'ADM-N1', (('A', 1), ('B', 1)))],
     'F4': [('site', 'A', 'ADM-A'), ('site', 'B', 'ADM-B'), ('net', 'N1', 'ADM-N1', (('A', 1), ('B', 1))),
@@ -158,10 +169,11 @@ class CBMModel(Model):
         world.reset_all()
         self.adm_ids = []
         for spec in FAMILIES[self.family]:
+            iso = spec[-1] == 'iso'
             if spec[0] == 'site':
-                site_adm(spec[1], spec[2])
+                site_adm(spec[1], spec[2], iso=iso)
             else:
-                network_adm(spec[1], spec[2], spec[3], spec[4] if len(spec) > 4 else None, spec[5] if len(spec) > 5 else False)
+                network_adm(spec[1], spec[2], spec[3], spec[4] if len(spec) > 4 else None, bool(spec[5]) if len(spec) > 5 else False, iso=iso)
             self.adm_ids.append(spec[2])
         self.sources = {a: graph_content(a) for a in self.adm_ids}
         self.merged = ()
@@ -318,7 +330,7 @@ REPLAY = MODELS
 
 def run(report):
     q = report.tier == 'quick'
-    for fam, depth in (('F2', 7), ('F2x', 6), ('F2c', 6), ('F3', 6 if q else 8), ('F3m', 6 if q else 8), ('F4', 5 if q else 8)):
+    for fam, depth in (('F2', 7), ('F2x', 6), ('F2o', 6), ('F2c', 6), ('F3', 6 if q else 8), ('F3m', 6 if q else 8), ('F4', 5 if q else 8)):
         g = bfs(report, fam, MODELS[fam], depth=depth, chunk=2,
                 rule=f'family {fam}: merge(X) / unmerge(X) / snapshot / rollback histories to depth {depth}; the combined graph is '
                      f'compared with the reference union of the merged set after every step (so equal sets reached by different '
